@@ -2,10 +2,12 @@
   Property C06 — an element is valid iff all channels share sample rate and point count.
 -/
 import BB.Proofs.Element
+import BB.Proofs.G2Element
 import BB.Model.Sequence
 
 namespace BB.C06
 open BB BB.Element
+open BB.G2
 
 /-- Validation (the three stages as coded, including `numpy.allclose(…, atol=min(SRs))`) succeeds
     iff all channels have the same sample rate and the same number of points, and raises
@@ -127,6 +129,475 @@ theorem addArray_refuses (e : Element) (ch : Chan) (wfm : List ℚ) (sr : Val) (
 /-! ### non-vacuity -/
 
 example : allClose [1, 1 + 1/300] 100 = true ∧ rhe (1 * 100) = 100 ∧ rhe ((1 + 1/300) * 100) = 100 := by
+  decide +kernel
+
+/-! ## G2 additions -/
+
+/-! ### what an accepted validation says about every channel -/
+
+/-- **`Element.SR` is the common rate** (clause "Element.SR is the common rate"): if
+    `validateDurations` accepts and caches `(v, d)`, then every channel — blueprint or raw array —
+    reports the sample rate `v`, `Element.SR` returns `v` and `Element.duration` returns `d`. -/
+theorem validate_ok_common_SR (e : Element) (v : Val) (d : ℚ) (h : e.validate = .ok (v, d)) :
+    (∀ ent ∈ Dict.vals e.chans, chanSR ent = .ok v) ∧ e.getSR = .ok v ∧ e.duration = .ok d := by
+  obtain ⟨p, hall, _, _⟩ := validate_ok_channels e v d h
+  exact ⟨fun ent hent => (hall ent hent).1, by simp [getSR, h, Except.map],
+    by simp [Element.duration, h, Except.map]⟩
+
+/-- **`Element.points` is every channel's point count**: if validation accepts, `Element.points`
+    returns a number `p` and every channel's own point count (a blueprint's `points`, a raw array's
+    `len(wfm)`) is `p`. -/
+theorem validate_ok_common_points (e : Element) (m : Val × ℚ) (h : e.validate = .ok m) :
+    ∃ p : ℤ, e.points = .ok p ∧ ∀ ent ∈ Dict.vals e.chans, chanPoints ent = .ok p := by
+  obtain ⟨v, d⟩ := m
+  obtain ⟨p, hall, hp, _⟩ := validate_ok_channels e v d h
+  exact ⟨p, hp, fun ent hent => (hall ent hent).2⟩
+
+/-! ### the iff without the bookkeeping hypotheses -/
+
+/-- every channel has a duration and a point count as soon as its sample rate is a non-zero number
+    and (for a blueprint) the waits resolve -/
+theorem chan_duration_points_ok (ent : ChEntry) (s : ℚ) (hs : s ≠ 0) (hS : chanSR ent = .ok (.num s))
+    (hbp : ∀ b, ent.data = .bp b → ∃ ds, b.resolveWaits = .ok ds) :
+    (∃ d, chanDuration ent = .ok d) ∧ (∃ n, chanPoints ent = .ok n) := by
+  obtain ⟨data, flags⟩ := ent
+  cases data with
+  | bp b =>
+    obtain ⟨ds, hds⟩ := hbp b rfl
+    simp only [chanSR, Except.ok.injEq] at hS
+    exact ⟨⟨sumR ds, by simp [chanDuration, BP.duration, hds, Except.map]⟩,
+      ⟨rhe (sumR ds * s), by simp [chanPoints, BP.points, hS, hds, Except.map]⟩⟩
+  | arr a sr =>
+    simp only [chanSR, Except.ok.injEq] at hS
+    subst hS
+    exact ⟨⟨((arrLen a : Nat) : Int) / s, by simp [chanDuration, hs]⟩, ⟨(arrLen a : Nat), by simp [chanPoints]⟩⟩
+  | broken => simp [chanSR] at hS
+
+/-- helper: if every member maps to `c`, every result of a successful `mapM` is `c` -/
+theorem mapM_const_mem {α β : Type} (f : α → Except Err β) (l : List α) (r : List β)
+    (h : l.mapM f = .ok r) (c : β) (hc : ∀ x ∈ l, f x = .ok c) : ∀ y ∈ r, y = c := by
+  intro y hy
+  obtain ⟨i, hi, rfl⟩ := List.getElem_of_mem hy
+  have hl := mapM_ok_length f l r h
+  have h1 := mapM_ok_getElem f l r h i (by omega) hi
+  rw [hc _ (List.getElem_mem _)] at h1
+  exact (Except.ok.inj h1).symm
+
+/-- **validation succeeds iff all channels share sample rate and point count, else
+    ElementDurationError** (first sentence of the property), with the bookkeeping hypotheses of
+    `validate_iff_same_SR_and_points` discharged: for every non-empty element in which every
+    channel's sample rate is a number ≥ 1 and every blueprint's `waituntil`s resolve (so that
+    durations and point counts exist), `validateDurations` accepts iff there are a rate `v` and a
+    count `n` that every channel — blueprint or raw array — reports, and raises
+    ElementDurationError otherwise.  (For sample rates below 1 the iff is false, see
+    `validate_iff_false_below_unit_SR`.) -/
+theorem validate_iff_common_SR_and_points (e : Element) (hne : e.chans ≠ [])
+    (hsr : ∀ ent ∈ Dict.vals e.chans, ∃ s : ℚ, 1 ≤ s ∧ chanSR ent = .ok (.num s))
+    (hbp : ∀ ent ∈ Dict.vals e.chans, ∀ b, ent.data = .bp b → ∃ ds, b.resolveWaits = .ok ds) :
+    ((∃ m, e.validate = .ok m) ↔
+      ∃ (v : Val) (n : ℤ), ∀ ent ∈ Dict.vals e.chans, chanSR ent = .ok v ∧ chanPoints ent = .ok n) ∧
+    ((¬ ∃ (v : Val) (n : ℤ), ∀ ent ∈ Dict.vals e.chans, chanSR ent = .ok v ∧ chanPoints ent = .ok n) →
+      e.validate = .error .elemdur) := by
+  have hok : ∀ ent ∈ Dict.vals e.chans, (∃ d, chanDuration ent = .ok d) ∧ (∃ n, chanPoints ent = .ok n) := by
+    intro ent hent
+    obtain ⟨s, hs1, hS⟩ := hsr ent hent
+    exact chan_duration_points_ok ent s (by intro h0; rw [h0] at hs1; exact absurd hs1 (by decide)) hS
+      (hbp ent hent)
+  obtain ⟨srs, h1⟩ := mapM_ok_of_forall_exists chanSR (Dict.vals e.chans)
+    (fun ent hent => by obtain ⟨s, _, hS⟩ := hsr ent hent; exact ⟨_, hS⟩)
+  obtain ⟨durs, h2⟩ := mapM_ok_of_forall_exists chanDuration (Dict.vals e.chans) (fun ent hent => (hok ent hent).1)
+  obtain ⟨npts, h3⟩ := mapM_ok_of_forall_exists chanPoints (Dict.vals e.chans) (fun ent hent => (hok ent hent).2)
+  have hl1 := mapM_ok_length _ _ _ h1
+  have hl2 := mapM_ok_length _ _ _ h2
+  have hl3 := mapM_ok_length _ _ _ h3
+  cases hvals : Dict.vals e.chans with
+  | nil =>
+    have : e.chans = [] := by simpa [Dict.vals] using hvals
+    exact absurd this hne
+  | cons ent0 rest =>
+    have hne' : (Dict.vals e.chans).isEmpty = false := by rw [hvals]; rfl
+    obtain ⟨s0, hs0, hS0⟩ := hsr ent0 (by rw [hvals]; simp)
+    have hs0ne : s0 ≠ 0 := by intro h0; rw [h0] at hs0; exact absurd hs0 (by decide)
+    have hat : allSame srs = true → atolOf srs = .ok s0 ∧ 1 ≤ s0 ∧
+        ∀ i (hi : i < durs.length) (hj : i < npts.length), npts[i] = rhe (durs[i] * s0) := by
+      intro hsame
+      have hhead : chanSR ent0 = .ok (srs.headD .none) :=
+        mapM_allSame chanSR _ srs h1 hsame .none ent0 (by rw [hvals]; simp)
+      have hh : srs.headD .none = .num s0 := by
+        rw [hS0] at hhead; exact (Except.ok.inj hhead).symm
+      have hall : ∀ x ∈ srs, x = .num s0 := fun x hx => by rw [allSame_mem srs hsame .none x hx, hh]
+      have hrep : srs = List.replicate (rest.length + 1) (.num s0) := by
+        rw [List.eq_replicate_iff]
+        exact ⟨by rw [hl1, hvals]; rfl, hall⟩
+      refine ⟨by rw [hrep]; exact atolOf_replicate _ _, hs0, ?_⟩
+      intro i hi hj
+      have hiv : i < (Dict.vals e.chans).length := by omega
+      have hsi : chanSR (Dict.vals e.chans)[i] = .ok (.num s0) := by
+        have := mapM_ok_getElem chanSR _ _ h1 i hiv (by omega)
+        rw [this, hall _ (List.getElem_mem _)]
+      exact chan_points_link (Dict.vals e.chans)[i] s0 hs0ne hsi durs[i] npts[i]
+        (mapM_ok_getElem chanDuration _ _ h2 i hiv hi) (mapM_ok_getElem chanPoints _ _ h3 i hiv hj)
+    have key := validate_iff_same_SR_and_points e srs durs npts s0 hne' h1 h2 h3 hat
+    have hconv : (allSame srs = true ∧ allSame npts = true) ↔
+        ∃ (v : Val) (n : ℤ), ∀ ent ∈ ent0 :: rest, chanSR ent = .ok v ∧ chanPoints ent = .ok n := by
+      rw [← hvals]
+      constructor
+      · rintro ⟨ha, hb⟩
+        exact ⟨srs.headD .none, npts.headD 0, fun ent hent =>
+          ⟨mapM_allSame chanSR _ srs h1 ha .none ent hent, mapM_allSame chanPoints _ npts h3 hb 0 ent hent⟩⟩
+      · rintro ⟨v, n, hvn⟩
+        exact ⟨allSame_of_forall srs v (mapM_const_mem chanSR _ srs h1 v (fun x hx => (hvn x hx).1)),
+          allSame_of_forall npts n (mapM_const_mem chanPoints _ npts h3 n (fun x hx => (hvn x hx).2))⟩
+    rw [← hconv]
+    exact key
+
+/-- non-vacuity of `validate_iff_common_SR_and_points`: a blueprint channel (10 Sa/s, durations
+    1 + 1 s) beside a raw-array channel of 20 samples at 10 Sa/s satisfies every hypothesis and
+    is accepted; with 19 samples the hypotheses still hold and the element is refused. -/
+def exBP : BP :=
+  { segs := [ { name := "ramp", fn := Fn.rampFn, args := [.num 0, .num 1], dur := .num 1 }
+            , { name := "ramp2", fn := Fn.rampFn, args := [.num 0, .num 1], dur := .num 1 } ]
+    SR := .num 10 }
+/-- example element: `exBP` on channel 1, a raw array of `n` zeros at 10 Sa/s on channel "raw" -/
+def exEl (n : Nat) : Element :=
+  { chans := [ (.int 1, { data := .bp exBP })
+             , (.str "raw", { data := .arr [("wfm", List.replicate n 0)] (.num 10) }) ] }
+
+example : (exEl 20).chans ≠ [] ∧
+    (∀ ent ∈ Dict.vals (exEl 20).chans, chanSR ent = .ok (.num 10)) ∧ (1 : ℚ) ≤ 10 ∧
+    exBP.resolveWaits = .ok [1, 1] ∧
+    (exEl 20).validate = .ok (.num 10, 2) ∧ (exEl 19).validate = .error .elemdur := by
+  decide +kernel
+
+/-- **the `≥ 1` hypothesis is needed**: at a common sample rate of 1/10 Sa/s two blueprint channels
+    of 10 s and 14 s both have 1 point (`round(1.0) = round(1.4) = 1`), yet stage 2
+    (`numpy.allclose(durations, durations[0], atol=min(SRs))`, here `atol = 0.1`) refuses the
+    element: the iff of the property fails in the model (and in the code) for sample rates below
+    1 Sa/s. -/
+theorem validate_iff_false_below_unit_SR :
+    ∃ e : Element, (∀ ent ∈ Dict.vals e.chans, chanSR ent = .ok (.num (1/10)) ∧ chanPoints ent = .ok 1) ∧
+      e.validate = .error .elemdur := by
+  refine ⟨{ chans :=
+      [ (.int 1, { data := .bp { segs := [{ name := "ramp", fn := Fn.rampFn, args := [.num 0, .num 1], dur := .num 10 }], SR := .num (1/10) } })
+      , (.int 2, { data := .bp { segs := [{ name := "ramp", fn := Fn.rampFn, args := [.num 0, .num 1], dur := .num 14 }], SR := .num (1/10) } }) ] }, ?_, ?_⟩
+  · decide +kernel
+  · decide +kernel
+
+/-! ### every delivered array has exactly `Element.points` samples -/
+
+/-- the lengths of everything `getArrays` delivers for one channel that has one entry per sample:
+    a forged blueprint's waveform (its blocks together), marker 1, marker 2 and time axis; a raw-array
+    channel's stored arrays (waveform and markers) and, when asked for, its time axis -/
+def outLens : ChOut → List Nat
+  | .forged f _ _ => [sumN (f.blocks.map Blk.len), f.m1.length, f.m2.length, f.N]
+  | .arrays a _ tm => a.map (·.2.length) ++ (match tm with | some (n, _) => [n] | none => [])
+
+/-- all resolved segment durations of the blueprint are whole numbers of samples -/
+def WholeSamples (b : BP) : Prop :=
+  ∀ sr ds, b.SR = .num sr → b.resolveWaits = .ok ds → ∀ d ∈ ds, ∃ m : ℕ, d * sr = m
+
+/-- **forged length = points, at element level** (clause "For an accepted element whose segment
+    durations are whole numbers of samples, every channel's forged waveform and markers have exactly
+    Element.points samples"): for every element that validation accepts and `getArrays` forges,
+    whose blueprint durations are whole numbers of samples and whose raw-array channels are as
+    `addArray` stores them (`RawWF`, preserved by every public element operation): `Element.points`
+    returns `p`, `getArrays` returns the element's channels in order, and every array delivered for
+    every channel — waveform, markers, time axis, blueprint or raw — has exactly `p` samples. -/
+theorem getArrays_lengths_are_points (e : Element) (m : Val × ℚ) (t : Bool) (out : Dict Chan ChOut)
+    (hv : e.validate = .ok m) (hg : e.getArrays t = .ok out) (hwf : RawWF e)
+    (hal : ∀ ent ∈ Dict.vals e.chans, ∀ b, ent.data = .bp b → WholeSamples b) :
+    ∃ p : ℤ, e.points = .ok p ∧ Dict.keys out = e.channels ∧
+      ∀ co ∈ out, ∀ n ∈ outLens co.2, (n : ℤ) = p := by
+  obtain ⟨v, d⟩ := m
+  obtain ⟨p, hall, hp, _⟩ := validate_ok_channels e v d hv
+  refine ⟨p, hp, getArrays_channels e t out hg, ?_⟩
+  obtain ⟨hl, hpt⟩ := getArrays_pointwise e t out hg
+  intro co hco n hn
+  obtain ⟨i, hi, rfl⟩ := List.getElem_of_mem hco
+  have hi' : i < e.chans.length := by omega
+  obtain ⟨_, hout⟩ := hpt i hi' hi
+  have hmem : (e.chans[i]).2 ∈ Dict.vals e.chans := by
+    unfold Dict.vals
+    exact List.mem_map_of_mem (List.getElem_mem hi')
+  have hpts := (hall _ hmem).2
+  generalize (e.chans[i]).2 = ent at hout hmem hpts
+  generalize (out[i]).2 = o at hout hn
+  obtain ⟨data, flags⟩ := ent
+  cases data with
+  | bp b =>
+    simp only [chanOut] at hout
+    cases hf : forgeBP b with
+    | error er => simp [hf, Except.map] at hout
+    | ok f =>
+      simp only [hf, Except.map, Except.ok.injEq] at hout
+      subst hout
+      obtain ⟨sr, ds, ns, hsr, hd, _, _, _⟩ := (forge_ok_iff b f).mp hf
+      have hw := hal _ hmem b rfl sr ds hsr hd
+      obtain ⟨hbp, h1, h2, h3⟩ := forged_length_is_points b f sr ds hf hsr hd hw
+      simp only [chanPoints] at hpts
+      rw [hbp] at hpts
+      have hN : (f.N : ℤ) = p := Except.ok.inj hpts
+      simp only [outLens, List.mem_cons, List.not_mem_nil, or_false] at hn
+      rcases hn with rfl | rfl | rfl | rfl
+      · rw [h3]; exact hN
+      · rw [h1]; exact hN
+      · rw [h2]; exact hN
+      · exact hN
+  | arr a sr =>
+    simp only [chanPoints, Except.ok.injEq] at hpts
+    have hawf := hwf _ hmem a sr rfl
+    have hcases : ∃ tm, o = .arrays a flags tm ∧ ∀ x s, tm = some (x, s) → x = arrLen a := by
+      simp only [chanOut] at hout
+      split at hout
+      · split at hout
+        · split at hout
+          · simp at hout
+          · simp only [Except.ok.injEq] at hout
+            exact ⟨_, hout.symm, by intro x s h; simp at h; exact h.1.symm⟩
+        · simp at hout
+      · simp only [Except.ok.injEq] at hout
+        exact ⟨none, hout.symm, by intro x s h; simp at h⟩
+    obtain ⟨tm, rfl, htm⟩ := hcases
+    simp only [outLens, List.mem_append, List.mem_map] at hn
+    rcases hn with ⟨q, hq, rfl⟩ | hn
+    · rw [hawf.2 q hq]; exact hpts
+    · cases tm with
+      | none => simp at hn
+      | some xs =>
+        obtain ⟨x, s⟩ := xs
+        simp only [List.mem_cons, List.not_mem_nil, or_false] at hn
+        rw [hn, htm x s rfl]; exact hpts
+  | broken => simp [chanOut] at hout
+
+/-- `RawWF` holds for the empty element and is kept by `addBluePrint`, `addArray` (accepted or
+    refused), `addFlags`, `changeArg` and `changeDuration`: the hypothesis of the length theorem is
+    an invariant of the public element API -/
+theorem rawWF_public_api (e : Element) (h : RawWF e) :
+    RawWF ({} : Element) ∧
+    (∀ ch b, RawWF (e.addBluePrint ch b).st) ∧
+    (∀ ch wfm sr kw, RawWF (e.addArray ch wfm sr kw).st) ∧
+    (∀ ch fl, RawWF (e.addFlags ch fl).st) ∧
+    (∀ ch name arg value all, RawWF (e.changeArg ch name arg value all).st) ∧
+    (∀ ch name dur all, RawWF (e.changeDuration ch name dur all).st) :=
+  ⟨rawWF_empty, fun ch b => rawWF_addBluePrint e ch b h, fun ch wfm sr kw => rawWF_addArray e ch wfm sr kw h,
+    fun ch fl => rawWF_addFlags e ch fl h, fun ch _ _ _ _ => rawWF_withBP e ch _ h,
+    fun ch _ _ _ => rawWF_withBP e ch _ h⟩
+
+/-- non-vacuity: the mixed element `exEl 20` satisfies every hypothesis; its 20 points are the
+    length of everything delivered -/
+example : (exEl 20).validate = .ok (.num 10, 2) ∧ (exEl 20).points = .ok 20 ∧
+    ((exEl 20).getArrays true).map (fun out => out.map (fun co => outLens co.2)) =
+      .ok [[20, 20, 20, 20], [20, 20]] := by
+  decide +kernel
+
+/-- non-vacuity of `WholeSamples`: 1 s at 10 Sa/s is 10 samples -/
+theorem exBP_wholeSamples : WholeSamples exBP := by
+  intro sr ds hsr hd d hdm
+  have h1 : sr = 10 := by
+    have : exBP.SR = .num 10 := rfl
+    rw [this] at hsr; simpa using hsr.symm
+  have h2 : ds = [1, 1] := by
+    have : exBP.resolveWaits = .ok [1, 1] := by decide +kernel
+    rw [this] at hd; simpa using hd.symm
+  subst h1 h2
+  simp only [List.mem_cons, List.not_mem_nil, or_false, or_self] at hdm
+  exact ⟨10, by rw [hdm]; norm_num⟩
+
+example : RawWF (exEl 20) := by
+  intro ent hent a sr hd
+  simp only [exEl, Dict.vals, List.map_cons, List.map_nil, List.mem_cons, List.not_mem_nil, or_false] at hent
+  rcases hent with rfl | rfl
+  · simp at hd
+  · simp only [ChData.arr.injEq] at hd
+    rw [← hd.1]
+    refine ⟨⟨_, rfl⟩, ?_⟩
+    intro p hp
+    simp only [List.mem_cons, List.not_mem_nil, or_false] at hp
+    subst hp
+    rfl
+
+/-! ### `Element.duration = points / SR`, and each blueprint agrees -/
+
+/-- **duration, points and SR agree** (clause "Element.duration equals points/SR, Element.SR is the
+    common rate and each blueprint's own points/duration agree with them"): for every element that
+    validation accepts with a numeric non-zero sample rate `sr` and whose blueprint durations are whole
+    numbers of samples: `Element.SR = sr`, `Element.points = p`, `Element.duration = p / sr`, and
+    every blueprint channel has `SR = sr`, `points = p`, `duration = p / sr`. -/
+theorem element_duration_points_SR_agree (e : Element) (sr d : ℚ) (hv : e.validate = .ok (.num sr, d))
+    (hsr0 : sr ≠ 0)
+    (hal : ∀ ent ∈ Dict.vals e.chans, ∀ b, ent.data = .bp b → WholeSamples b) :
+    ∃ p : ℤ, e.getSR = .ok (.num sr) ∧ e.points = .ok p ∧ e.duration = .ok ((p : ℚ) / sr) ∧
+      ∀ ent ∈ Dict.vals e.chans, ∀ b, ent.data = .bp b →
+        b.SR = .num sr ∧ b.points = .ok p ∧ b.duration = .ok ((p : ℚ) / sr) := by
+  obtain ⟨p, hall, hp, ent0, hhead, hd0⟩ := validate_ok_channels e (.num sr) d hv
+  obtain ⟨_, hSR, hdur⟩ := validate_ok_common_SR e (.num sr) d hv
+  have hbps : ∀ ent ∈ Dict.vals e.chans, ∀ b, ent.data = .bp b →
+      b.SR = .num sr ∧ b.points = .ok p ∧ b.duration = .ok ((p : ℚ) / sr) := by
+    intro ent hent b hb
+    obtain ⟨hs, hpt⟩ := hall ent hent
+    obtain ⟨data, flags⟩ := ent
+    simp only at hb
+    subst hb
+    simp only [chanSR, Except.ok.injEq] at hs
+    simp only [chanPoints] at hpt
+    cases hr : b.resolveWaits with
+    | error er => simp [BP.points, hs, hr, Except.map] at hpt
+    | ok ds =>
+      obtain ⟨p', d', h1, h2, h3⟩ := duration_is_points_over_SR b sr ds hsr0 hs hr (hal _ hent b rfl sr ds hs hr)
+      rw [hpt] at h1
+      have : p = p' := Except.ok.inj h1
+      subst this
+      exact ⟨hs, hpt, by rw [h2, h3]⟩
+  refine ⟨p, hSR, hp, ?_, hbps⟩
+  rw [hdur]
+  congr 1
+  have hent0 : ent0 ∈ Dict.vals e.chans := List.mem_of_mem_head? hhead
+  obtain ⟨hs0, hp0⟩ := hall ent0 hent0
+  obtain ⟨data, flags⟩ := ent0
+  cases data with
+  | bp b =>
+    have := (hbps _ hent0 b rfl).2.2
+    simp only [chanDuration] at hd0
+    rw [hd0] at this
+    exact Except.ok.inj this
+  | arr a s =>
+    simp only [chanSR, Except.ok.injEq] at hs0
+    subst hs0
+    simp only [chanDuration, hsr0, if_false, Except.ok.injEq] at hd0
+    simp only [chanPoints, Except.ok.injEq] at hp0
+    rw [← hd0, ← hp0]
+  | broken => simp [chanSR] at hs0
+
+example : (exEl 20).validate = .ok (.num 10, 2) ∧ (10 : ℚ) ≠ 0 ∧ (exEl 20).duration = .ok ((20 : ℤ) / 10) := by
+  decide +kernel
+
+/-! ### raw arrays: accepted iff the lengths match, and delivered as given -/
+
+/-- **`addArray` accepts exactly when every marker array has the waveform's length** (the converse
+    of `addArray_refuses`), for every element, channel, waveform, SR and keyword arrays. -/
+theorem addArray_accepts_iff (e : Element) (ch : Chan) (wfm : List ℚ) (sr : Val) (kw : Dict String (List ℚ)) :
+    (e.addArray ch wfm sr kw).err = none ↔ ∀ p ∈ kw, p.2.length = wfm.length :=
+  addArray_accepts_iff_aux e ch wfm sr kw
+
+/-- **raw-array channels come back sample for sample as given** (clause "raw-array channels come
+    back sample-for-sample as given"): after an accepted `addArray(ch, wfm, SR, **kw)`, whenever
+    `getArrays` succeeds it delivers for `ch` a dict `a` (no flags, no forging) in which `'wfm'` is
+    exactly `wfm`, every keyword array is found unchanged under its key (keyword names are pairwise
+    distinct, as in a Python call), and nothing else is in `a`. -/
+theorem addArray_then_getArrays (e : Element) (ch : Chan) (wfm : List ℚ) (sr : Val)
+    (kw : Dict String (List ℚ)) (out : Dict Chan ChOut)
+    (hacc : (e.addArray ch wfm sr kw).err = none)
+    (hg : (e.addArray ch wfm sr kw).st.getArrays false = .ok out) :
+    ∃ a, Dict.get? out ch = some (.arrays a none none) ∧
+      Dict.get? a "wfm" = some wfm ∧
+      (∀ p ∈ a, p = ("wfm", wfm) ∨ p ∈ kw) ∧
+      ((Dict.keys kw).Nodup → ∀ k xs, (k, xs) ∈ kw → k ≠ "wfm" → Dict.get? a k = some xs) := by
+  have hall := (addArray_accepts_iff e ch wfm sr kw).mp hacc
+  rw [addArray_accepted e ch wfm sr kw hall] at hg
+  simp only at hg
+  obtain ⟨o, ho, hget⟩ := getArrays_get? false _ _ out hg ch
+    { data := .arr (storedArrays wfm kw) sr } (Dict.get?_upsert_self _ _ _)
+  simp only [chanOut, Bool.false_and, Bool.false_eq_true, if_false, Except.ok.injEq] at ho
+  subst ho
+  refine ⟨storedArrays wfm kw, hget, Dict.get?_upsert_self _ _ _, ?_, ?_⟩
+  · intro p hp
+    unfold storedArrays at hp
+    rcases mem_upsert _ _ _ p hp with e1 | e1
+    · exact Or.inl e1
+    · rcases mem_foldl_upsert kw [] p e1 with e2 | e2
+      · simp at e2
+      · exact Or.inr e2
+  · intro hnd k xs hk hne
+    unfold storedArrays
+    rw [Dict.get?_upsert_other _ _ _ _ hne]
+    exact get?_foldl_upsert kw [] hnd k xs hk
+
+/-- the same with `includetime=True`: the arrays are still the ones given (a time axis of
+    `len(wfm)` points is added beside them) -/
+theorem addArray_then_getArrays_with_time (e : Element) (ch : Chan) (wfm : List ℚ) (sr : Val)
+    (kw : Dict String (List ℚ)) (out : Dict Chan ChOut)
+    (hacc : (e.addArray ch wfm sr kw).err = none)
+    (hg : (e.addArray ch wfm sr kw).st.getArrays true = .ok out) :
+    ∃ tm, Dict.get? out ch = some (.arrays (storedArrays wfm kw) none tm) ∧
+      ∀ n s, tm = some (n, s) → n = wfm.length ∧ sr = .num s := by
+  have hall := (addArray_accepts_iff e ch wfm sr kw).mp hacc
+  rw [addArray_accepted e ch wfm sr kw hall] at hg
+  simp only at hg
+  obtain ⟨o, ho, hget⟩ := getArrays_get? true _ _ out hg ch
+    { data := .arr (storedArrays wfm kw) sr } (Dict.get?_upsert_self _ _ _)
+  have hlen := (storedArrays_wf wfm kw hall).2
+  simp only [chanOut] at ho
+  split at ho
+  · split at ho
+    · split at ho
+      · simp at ho
+      · simp only [Except.ok.injEq] at ho
+        subst ho
+        exact ⟨_, hget, by intro n s h; simp at h; exact ⟨by rw [← h.1, hlen], by rw [h.2]⟩⟩
+    · simp at ho
+  · simp only [Except.ok.injEq] at ho
+    subst ho
+    exact ⟨none, hget, by intro n s h; simp at h⟩
+
+example : (({} : Element).addArray (.int 1) [1, 2, 3] (.num 10) [("m1", [0, 1, 0]), ("m2", [1, 1, 0])]).err = none ∧
+    (Dict.keys ([("m1", [0, 1, 0]), ("m2", [1, 1, 0])] : Dict String (List ℚ))).Nodup ∧
+    ((({} : Element).addArray (.int 1) [1, 2, 3] (.num 10) [("m1", [0, 1, 0]), ("m2", [1, 1, 0])]).st.getArrays false).isOk = true := by
+  decide +kernel
+
+
+/-! ### elements built through the public API -/
+
+/-- every way of building an element through its public API (accepted or refused calls alike) -/
+inductive EHist where
+  | empty
+  | addBluePrint (h : EHist) (ch : Chan) (b : BP)
+  | addArray (h : EHist) (ch : Chan) (wfm : List ℚ) (sr : Val) (kw : Dict String (List ℚ))
+  | addFlags (h : EHist) (ch : Chan) (fl : List Val)
+  | changeArg (h : EHist) (ch : Chan) (name : String) (arg value : Val) (all : Bool)
+  | changeDuration (h : EHist) (ch : Chan) (name : String) (dur : Val) (all : Bool)
+  | validateDurations (h : EHist)
+  | copy (h : EHist)
+
+/-- the element a history of public calls produces -/
+def EHist.eval : EHist → Element
+  | .empty => {}
+  | .addBluePrint h ch b => (h.eval.addBluePrint ch b).st
+  | .addArray h ch wfm sr kw => (h.eval.addArray ch wfm sr kw).st
+  | .addFlags h ch fl => (h.eval.addFlags ch fl).st
+  | .changeArg h ch name arg value all => (h.eval.changeArg ch name arg value all).st
+  | .changeDuration h ch name dur all => (h.eval.changeDuration ch name dur all).st
+  | .validateDurations h => h.eval.validateDurations.st
+  | .copy h => h.eval.copy
+
+/-- in every element built through the public API each raw-array channel holds a waveform and
+    arrays of that waveform's length only -/
+theorem rawWF_reachable (h : EHist) : RawWF h.eval := by
+  induction h with
+  | empty => exact rawWF_empty
+  | addBluePrint h ch b ih => exact rawWF_addBluePrint _ ch b ih
+  | addArray h ch wfm sr kw ih => exact rawWF_addArray _ ch wfm sr kw ih
+  | addFlags h ch fl ih => exact rawWF_addFlags _ ch fl ih
+  | changeArg h ch name arg value all ih => exact rawWF_withBP _ ch _ ih
+  | changeDuration h ch name dur all ih => exact rawWF_withBP _ ch _ ih
+  | validateDurations h ih =>
+    unfold EHist.eval validateDurations
+    split
+    · exact ih
+    · exact ih
+  | copy h ih => exact ih
+
+/-- **forged length = points for every element built through the public API**: the length theorem
+    with its raw-array hypothesis discharged. -/
+theorem getArrays_lengths_are_points_reachable (h : EHist) (m : Val × ℚ) (t : Bool) (out : Dict Chan ChOut)
+    (hv : h.eval.validate = .ok m) (hg : h.eval.getArrays t = .ok out)
+    (hal : ∀ ent ∈ Dict.vals h.eval.chans, ∀ b, ent.data = .bp b → WholeSamples b) :
+    ∃ p : ℤ, h.eval.points = .ok p ∧ Dict.keys out = h.eval.channels ∧
+      ∀ co ∈ out, ∀ n ∈ outLens co.2, (n : ℤ) = p :=
+  getArrays_lengths_are_points h.eval m t out hv hg (rawWF_reachable h) hal
+
+/-- non-vacuity: blueprint + raw array with two marker arrays, built through the API -/
+example : ((((EHist.empty.addBluePrint (.int 1) exBP).addArray (.str "raw") (List.replicate 20 0) (.num 10)
+      [("m1", List.replicate 20 1)]).validateDurations).eval.validate) = .ok (.num 10, 2) := by
   decide +kernel
 
 end BB.C06
